@@ -772,3 +772,21 @@ func GuardTrees() []*Node {
 	out = append(out, Group(Leaf(KHeader), Leaf(KPingback)).Number(), FilterE(Leaf(KStatus)).Number(), FilterTE(Leaf(KFailure), Leaf(KHeader)).Number())
 	return out
 }
+
+// FailQTrees: trees with one or two verifiers on which queries whose client goes away are played (the "failq"
+// family in main.go).
+func FailQTrees() []*Node {
+	var out []*Node
+	for k := 0; k < NumLeafKinds; k++ {
+		out = append(out, Leaf(k).Number())
+	}
+	out = append(out,
+		Group(Leaf(KFailure), Leaf(KStatus)).Number(),
+		Group(Leaf(KHeader), Leaf(KPingback)).Number(),
+		Group(Leaf(KMethod), Leaf(KQuery)).Number(),
+		Group(Leaf(KURL), Leaf(KFailure)).Number(),
+		FilterTE(Leaf(KFailure), Leaf(KStatus)).Number(),
+		FilterE(Leaf(KHeader)).Number(),
+	)
+	return out
+}
